@@ -13,7 +13,7 @@ META = {
     "note": "Trusted: TLC, Go toolchain, crypto/x509 for certificate creation, sha256 over the standard library's SPKI encoding as the issuer-key hash of CRLSet/OneCRL entries. OCSP/CRL fetching (ShouldCheckOCSP/ShouldCheckCRL) is not driven. The CRLSet clause is read both ways where the issuer is not among the reported parents (see design_notes/C12.md). Which chains the walk finds is C11's matter; here the walked chains are taken as observed.",
 }
 
-QUICK = ["times", "times-vae", "times-x", "times-ir", "times-nr", "times-eq", "selfx"]
+QUICK = ["times", "times-vae", "times-x", "times-ir", "times-nr", "times-eq", "times-re", "selfx"]
 THOROUGH = QUICK + ["cross", "rollover"]
 
 
@@ -28,7 +28,7 @@ def run(ctx):
     out = ctx.path("verify_obs_gen.ndjson")
     p = ctx.run(binary, ["replay-gen", ctx.specfile("graph_catalog.ndjson"), ctx.specfile("verify_cases.ndjson"), out], timeout=3000)
     _, st = ctx.harness_output(p)
-    if st.get("cases", 0) != len(cases) or st.get("with_chains", 0) == 0:
+    if st.get("cases", 0) != len(cases) or st.get("verify_calls", 0) < len(cases):
         raise Machinery("harness ran %s of %d cases (%s with chains)" % (st.get("cases"), len(cases), st.get("with_chains")))
     recs = read_ndjson(out)
     out2 = ctx.path("verify_obs_rnd.ndjson")
@@ -37,21 +37,17 @@ def run(ctx):
     _, st2 = ctx.harness_output(p)
     rnd = read_ndjson(out2)
     allrecs = recs + rnd
-    # vacuity: every result field must have been exercised with both outcomes
-    seen = {}
-    for r_ in allrecs:
-        res = r_["obs"]["res"]
-        for k in ("current", "expired", "never", "vae", "parents"):
-            seen.setdefault(k, set()).add(bool(res[k]))
-        for k in ("isexpired", "nameerr", "inrev"):
-            seen.setdefault(k, set()).add(res[k])
-        seen.setdefault("type", set()).add(res["type"])
-    for k, v in seen.items():
-        need = {"unknown", "leaf", "intermediate", "root"} if k == "type" else {True, False}
-        if not need <= v:
-            raise Machinery("vacuous: result field %s only took the values %s" % (k, sorted(map(str, v))))
     rej = gl.judge(ctx, "Trace_Verifier", "Verifier_judge.cfg", "verify_obs.ndjson", allrecs,
                    label="Trace_Verifier judges %d enumerated + %d random observations" % (len(recs), len(rnd)))
+    # vacuity: every clause must have been exercised with both outcomes.  The tags are computed by
+    # the specification from the input side (VerifyCover), never from the result under test.
+    need = {"chain-current", "chain-expired", "chain-never", "vae", "no-vae-but-chains", "parents", "two-parents",
+            "cert-expired", "cert-valid", "type-root", "type-intermediate", "type-leaf", "type-unknown", "name-none",
+            "name-match", "name-mismatch", "rev-must", "rev-must-not", "expired-with-parents"}
+    vacuous = None
+    if ctx.last_cover is None or not need <= ctx.last_cover:
+        vacuous = "vacuous: coverage tags never reached: %s" % sorted(need - (ctx.last_cover or set()))
+    ctx.cov["cover_tags"] = sorted(ctx.last_cover or [])
     ctx.cov["evaluations"] += st.get("verify_calls", 0) + st2.get("verify_calls", 0)
     ctx.cov["distinct_nontrivial"] += st.get("with_chains", 0) + st2.get("with_chains", 0)
     ctx.cov["traces_validated_against_impl"] += len(allrecs)
@@ -72,6 +68,8 @@ def run(ctx):
                                  res["parents"], res["isexpired"], res["type"], res["inrev"], len(rec["obs"]["walked"])),
                       "case": rec["case"]})
     ctx.candidates(binary, cands, reproduce=lambda path, body: reproduce(ctx, binary, path, body))
+    if vacuous and not ctx.violations:
+        ctx.problem(vacuous)
     if not quick:
         selftest(ctx, recs)
 
